@@ -7,6 +7,7 @@ git -C $WT checkout -q -- . ; git -C $WT checkout -q --detach $(git -C /repo rev
 for d in /verif/seeded/${1:-*}/; do
   n=$(basename $d)
   p=$(/venv/bin/python -c "import json;print(json.load(open('$d/meta.json'))['property'])")
+  if grep -q obsolete_since $d/meta.json; then echo "$n OBSOLETE (superseded by a later fix in /repo)"; continue; fi
   git -C $WT checkout -q -- .
   git -C $WT apply $d/patch.diff 2>/dev/null || { echo "$n NOAPPLY"; continue; }
   t0=$(date +%s)
